@@ -612,6 +612,23 @@ def rule_number_whole_and_fits(ctx):
         lo = any(pol is True and "numeric_limits" in c and "min()" in c and ">=" in c for c, pol in cs)
         hi = any(pol is True and "numeric_limits" in c and "max()" in c and "<=" in c for c, pol in cs)
         r.check(lo and hi, inst + "/fits-the-option-type", db.loc(f, x), "the long value is cast to the option's type without a range test against numeric_limits: facts %s" % cs)
+    # a referenced option is negated in `long`: -uopt() on the unsigned value itself wraps to 4294967292
+    n_neg = 0
+    for f in fs:
+        for n in f.all_nodes():
+            if n["k"] == "un" and n.get("op") == "-":
+                x = f.nodes.get(n["a"][0])
+                while x is not None and x["k"] == "cast" and (x.get("t") or "") in ("long", "const long"):
+                    break
+                if x is None or x["k"] in ("int",):
+                    continue
+                n_neg += 1
+                r.seen()
+                t = (x.get("t") or "").replace("const ", "")
+                r.check(t in ("long", "long long", "ptrdiff_t"), f.qn.replace("uncrustify::", "") + "/negation-in-long(%s)" % expr_str(f, x["i"])[:20], db.loc(f, n),
+                        "`%s` negates a value of type `%s`: an unsigned option value wraps instead of becoming negative, the range check then "
+                        "refuses a valid reference" % (expr_str(f, n["i"]), t or "?"))
+    r.require(n_neg >= 2, "only %d negations found in read_number" % n_neg)
     n_sc = 0
     for f in _readers(db):
         for n in f.all_nodes():
